@@ -271,3 +271,40 @@ MANIFEST_TEXT["C15"] = {
              "assumptions and guarantees, and unconnected compositions are compared with the exact conjunction."),
     "note": "Trusted: CPython, z3, pvm/exact.py.",
 }
+
+META["C14"] = {
+    "level": "exploration",
+    "rule": ("(a) every single-path deletion and every replacement of a value by a representative of every other JSON "
+             "kind (null, bool, number, string, list, object) of a valid contract entry in both representations, "
+             "through validate_contract_dict, from_dict and read_contracts_from_file, plus malformed file shapes "
+             "(enumerated exhaustively, counter fault_cases); (b) adversarial shapes driven through 12 list-level and "
+             "9 contract-level operations: empty lists, single variable, unbounded / degenerate contexts, more "
+             "eliminated variables than rows, cancelling coefficients, equality pairs, zero constants, infeasible and "
+             "thin systems, variable-free terms, duplicates, parallel rows, contracts without inputs / outputs / "
+             "assumptions / guarantees; (c) the workloads of the other checks re-executed under this check's "
+             "exception classifier attached to every public entry point. For every top-level public call the "
+             "exception type is classified against the documented set for that operation, operands are "
+             "re-snapshotted and copied after a raise. Non-trivial = at least one public call was observed; "
+             "distinct = case digests."),
+    "required": ["fault_cases", "file_fault_cases", "calls:PTL.elim_vars_by_refining", "calls:PTL.simplify",
+                 "calls:PIC.compose_tactics", "calls:PIC.quotient_tactics", "calls:IoContract.merge",
+                 "calls:ser.polyhedral_termlist_from_string", "calls:PIC.optimize",
+                 "fault:read_contracts_from_file:machine:ContractFormatError",
+                 "fault:read_contracts_from_file:human:ContractFormatError",
+                 "raised:PIC.compose_tactics:IncompatibleArgsError", "blend:c01", "blend:c02", "blend:c04",
+                 "adversarial:varfree", "adversarial:empty", "adversarial-contract:no_inputs"],
+    "assumptions": [TB, "solver faults (iteration limit, numerical difficulties) are not injected: the property "
+                    "quantifies over inputs and configurations", "tactic numbers outside 1..6 and arguments of the "
+                    "wrong Python type are not well-formed arguments and are not generated"],
+    "exhaustive": False,
+    "exhaustive_note": "the dictionary-fault sub-space (one valid entry per representation) is enumerated completely",
+    "soft_s": {"quick": 240, "thorough": 3000},
+}
+MANIFEST_TEXT["C14"] = {
+    "technique": RM + "exception-type classifier on every public entry point over all workloads + adversarial shapes; exhaustive single-field faults of contract dictionaries",
+    "text": ("Exploration with an enumerated core: the exception type of every top-level public call made by every "
+             "workload is classified against the documented set, operands are checked unchanged and copyable after a "
+             "raise, and every single-field fault of a valid dictionary entry must be rejected with "
+             "ContractFormatError/ValueError or leave a still-valid entry."),
+    "note": "Trusted: CPython, the 40-line reference schema of a contract dictionary in pvm/checks/c14.py.",
+}
